@@ -758,6 +758,40 @@ class Interp:
         e = self.guarded(lambda: self.d.clear(), ('C04', 'C03'), 'clear()')
         self.finish(e, 'clear')
 
+    def op_deep_chain(self, op):
+        """A chain of n re-entrant dispatches (each callback dispatches the
+        next event before it returns) on a dispatcher of its own: every
+        dispatch has called its listener by the time it returns."""
+        if self.cbstack or self.depth:
+            return 'skip'
+        n = op[1]
+        d2 = self.desper.EventDispatcher()
+        calls, late = [], []
+
+        def ev(self, k):
+            calls.append(k)
+            if k < n:
+                d2.dispatch('ev', k + 1)
+                if len(calls) <= k + 1 or calls[k + 1] != k + 1:
+                    late.append(k + 1)
+        H = self.desper.event_handler('ev')(type('Chain', (), {'ev': ev}))
+        h = H()
+        d2.add_handler(h)
+        try:
+            with kernel.budget(OP_BUDGET + 60 * n):
+                d2.dispatch('ev', 0)
+        except SimHang as e:
+            self.fail('C03', 'hang', f'chain of {n} dispatches: {e}')
+        except RecursionError:
+            self.probes['chain_hit_the_recursion_limit'] += 1
+            return None
+        self.probes['reentrant_chain>=334'] += n >= 334
+        if late or calls != list(range(n + 1)):
+            self.fail('C03', 'missing_delivery', f'chain of {n} re-entrant '
+                      f'dispatches: dispatch number {late[:3] or "?"} had '
+                      f'not called the registered listener when it returned '
+                      f'(calls in order: {calls[:5]}...{calls[-3:]})')
+
     def op_noweak(self, op):
         """A handler of a type that cannot be weakly referenced (a tuple
         subclass, say a NamedTuple): registering it is refused (TypeError) -
@@ -1513,6 +1547,9 @@ def generate(prop, run_seed, tier='quick', tolerate=frozenset()):
     if prop == 'C10' and crng.random() < .08:
         ops.insert(crng.randint(0, len(ops)),
                    ['noweak', crng.choice(EVENTS[:3])])
+    if prop == 'C03' and crng.random() < .02:
+        ops.insert(crng.randint(0, len(ops)),
+                   ['deep_chain', crng.choice([70, 260, 340, 400, 430])])
     r_long = crng.random()
     if prop == 'C04' and r_long < .004:
         # a very long backlog (bounded buffers): one listener, no scripts
